@@ -191,13 +191,21 @@ def bulk_tree_case(seed, n, shape="uniform", regime="float", soma_root=True, mag
             "shape": "bulk-" + shape, "regime": regime, "permuted": False}
 
 
-def build_tree(case, extras=True, source="", comments=None, strided=False):
+def build_tree(case, extras=True, source="", comments=None, strided=False, aliased=False):
     """`strided`: x, y, z, r are handed over as the columns of one (n, 4) float32 array (non-contiguous views), the
-    way a caller holding an xyzr matrix would."""
+    way a caller holding an xyzr matrix would.  `aliased`: a third extra column `w2` is given as the very same array
+    object as `w` (one measurement registered under two names)."""
     from swcgeom.core import Tree
 
     n = len(case["parents"])
     kw = {}
+    if aliased and extras and "tag" in case:
+        wcol = np.array(case["w"], dtype=np.float32)
+        return Tree(n, id=np.arange(n, dtype=np.int32), pid=np.array(case["parents"], dtype=np.int32),
+                    type=np.array(case["type"], dtype=np.int32), x=np.array(case["x"], dtype=np.float32),
+                    y=np.array(case["y"], dtype=np.float32), z=np.array(case["z"], dtype=np.float32),
+                    r=np.array(case["r"], dtype=np.float32), source=source, comments=comments,
+                    tag=np.array(case["tag"], dtype=np.int32), w=wcol, w2=wcol)
     if strided:
         m = np.array([case["x"], case["y"], case["z"], case["r"]], dtype=np.float32).T.copy()
         if extras and "tag" in case:
